@@ -153,6 +153,9 @@ def run_case(acc, which, subj, pname, X, lab, mode, cand, bs, bound, max_tapes, 
             continue
         acc.transitions += 1
         judge(ro, tp.choices, "real-seed", s)
+        if tp.unobservable:
+            acc.count("conformance_unobservable")
+            continue
         try:
             rr = PR.run_query(subj, X, y, cand_arg, bs, T.Tape(tp.choices), "substitute", return_utilities=True, seed=s)
         except T.Divergence as e:
